@@ -275,6 +275,15 @@ func (p *Proc) evalIdent(ec *ectx, id *ast.Ident) Val {
 					}
 				}
 			}
+			if strings.HasPrefix(id.Name, "iters") {
+				if n, err := strconv.Atoi(id.Name[5:]); err == nil {
+					if o := p.iters[n]; o != nil {
+						if t, ok := ec.st.vars[o]; ok {
+							return Val{T: t, Typ: o.Type()}
+						}
+					}
+				}
+			}
 			if strings.HasPrefix(id.Name, "visited") {
 				if n, err := strconv.Atoi(id.Name[7:]); err == nil {
 					if o := p.visited[n]; o != nil {
